@@ -1159,7 +1159,7 @@ def anchored_coverage(cases):
 
 class C14(core.Property):
     id = "C14"
-    modules = ["Proofs.FeaturesProofs", "Proofs.C14Proofs", "Props.C14"]
+    modules = ["Proofs.FeaturesProofs", "Proofs.C14Proofs", "Props.C14", "Proofs.LinkDispatchEndpoint"]
     obligations = ["shape_general", "site_iff_thread", "inject_iff_asked", "site_iff_thread_product",
                    "inject_iff_asked_product", "recv_delivery", "plan_actual", "plan_facts", "step_log", "ws_run",
                    "step_tot", "balance", "M_run", "O_run", "K_run", "at_most_once", "exactly_once_at_quiescence",
@@ -1169,8 +1169,12 @@ class C14(core.Property):
                    "inject_iff_asked_g", "inject_only_if_asked_g", "inject_refuted_unresolvable_hints",
                    "shapes_in_context_g", "thread_keeps", "isb_known", "shared_name_pairs", "custom_builtin_once",
                    "C14_refuted_unresolvable_hints", "C14_shapes", "C14_partial", "C14_refuted_builtin_raises", "C14_refuted",
-                   "C14_nonvacuous", "C14_reference_agrees"]
-    coq_targets = ["Props/C14.vo", "Extract/ExtractC14.vo"]
+                   "C14_nonvacuous", "C14_reference_agrees",
+                   # the link with Model/Endpoint.v (C01/C08/C09's model): Proofs/LinkDispatchEndpoint.v
+                   "link_run", "link_starts", "link_quiescent", "endpoint_satisfies_C14",
+                   "endpoint_command_after_builtin", "dispatch_inherits_never_starts", "cfg_of_agrees",
+                   "link_function", "link_nonvacuous"]
+    coq_targets = ["Props/C14.vo", "Extract/ExtractC14.vo", "Proofs/LinkDispatchEndpoint.vo"]
     rule = ("non-trivial = the registration shape has a thread decorator or a server parameter, or the message's "
             "method has both a built-in and a user handler")
     trusted_base = ["Coq 8.16.1 kernel incl. vm_compute (shape product, refutation witness, Examples)",
@@ -1398,10 +1402,10 @@ class C14(core.Property):
         self.extra_coverage["real_runtime_sequences"] = nreal
         if not chk.quick:
             # the compiled proofs once more through the independent checker
-            r = core.sh("timeout 900 coqchk -silent -o -Q . Pygls Pygls.Props.C14", cwd=core.COQ, timeout=1000)
+            r = core.sh("timeout 900 coqchk -silent -o -Q . Pygls Pygls.Props.C14 Pygls.Proofs.LinkDispatchEndpoint", cwd=core.COQ, timeout=1000)
             out = r.stdout + r.stderr
             ok = r.returncode == 0 and "* Axioms: <none>" in out
-            self.extra_coverage["coqchk"] = "Props.C14: ok, axioms <none>" if ok else out[-600:]
+            self.extra_coverage["coqchk"] = "Props.C14 + Proofs.LinkDispatchEndpoint: ok, axioms <none>" if ok else out[-600:]
             if not ok:
                 viol.append({"case": None, "impl": out[-600:], "S": "coqchk -o accepts Props/C14.vo without axioms",
                              "verdict": "violation", "suffix": "no-failing-input-found"})
@@ -1409,3 +1413,32 @@ class C14(core.Property):
 
 
 PROPERTY = C14
+
+
+# ---------------------------------------------------------------------------------------------
+# Second tie for has_ls_param_or_annotation (appended; harness/gen_ast.py, Proofs/AstFeaturesEquiv.v): its SOURCE
+# TEXT is translated on every run by a fail-closed AST translator, and the kernel re-checks that - with
+# inspect.signature / islice / next / typing.get_type_hints as oracles answering as the signature g does - it
+# returns Model/Dispatch.v's has_ls_g g.  Imported late ("Module::theorem").
+import sys as _sys
+_sys.path.insert(0, os.path.dirname(os.path.abspath(__file__)))
+import gen_c14 as _gen_c14
+
+C14.obligations = list(C14.obligations) + ["Proofs.AstFeaturesEquiv::ast_has_ls_equiv"]
+C14.coq_targets = list(C14.coq_targets) + ["Proofs/AstFeaturesEquiv.vo"]
+_prev_regenerate14 = getattr(C14, "regenerate", None)
+
+
+def _regenerate14(self, chk):
+    try:
+        if _prev_regenerate14 is not None:
+            _prev_regenerate14(self, chk)
+    finally:
+        with core._Lock("coq"):                                      # coq/Gen is shared
+            try:
+                _gen_c14.main()
+            finally:
+                core._coq_make(["Proofs/AstFeaturesEquiv.vo"])
+
+
+C14.regenerate = _regenerate14
